@@ -501,6 +501,7 @@ func runC01(c *Ctx, tier string) {
 	// ---- O8: ID-keyed caches
 	runIDCaches(c, "C01-O8", "")
 	runValueIDFromEncoder(c, "C01-T1")
+	runControlDoesNotEndScan(c, "C01-C1")
 
 	// ---- O4 (shared with C11)
 	runC01Channels(c, "C01")
